@@ -963,19 +963,25 @@ class ArmV6:
             t0_size = to_signed(self.registers.vtcr.t0sz, 4)
             s_level = self.registers.vtcr.sl0
             ba_lower_bound = 14 - t0_size - (9 * s_level)
+            inconsistent = False
             if s_level == 0 and t0_size < -2:
                 print('unpredictable')
+                inconsistent = True
             if s_level == 1 and t0_size > 1:
                 print('unpredictable')
+                inconsistent = True
             if bit_at(self.registers.vtcr.sl0, 1) == 0b1:
                 print('unpredictable')
-            if substring(self.registers.vttbr, ba_lower_bound - 1, 3) != 0:
-                print('unpredictable')
-            if t0_size == -8 or substring(ia, 39, 32 - t0_size) == 0:
-                current_level = 2 - s_level
-                base_address = substring(self.registers.vttbr, 39, ba_lower_bound) << ba_lower_bound
-                base_found = True
-                start_bit = 31 - t0_size
+                inconsistent = True
+            # an inconsistent VTCR.SL0 / VTCR.T0SZ programming has no table base: the lookup takes a translation fault
+            if not inconsistent:
+                if substring(self.registers.vttbr, ba_lower_bound - 1, 3) != 0:
+                    print('unpredictable')
+                if t0_size == -8 or substring(ia, 39, 32 - t0_size) == 0:
+                    current_level = 2 - s_level
+                    base_address = substring(self.registers.vttbr, 39, ba_lower_bound) << ba_lower_bound
+                    base_found = True
+                    start_bit = 31 - t0_size
             lookup_secure = False
             walkaddr.memattrs.type = MemType.NORMAL
             hintsattrs = self.convert_attrs_hints(self.registers.vtcr.irgn0)
